@@ -10,11 +10,13 @@ pub struct RenderOpts {
     pub vis_pub: bool,
     /// derive line placed on bitenums (may be empty)
     pub enum_derives: String,
+    /// field doc comments are written after the bit/bits attribute instead of before it
+    pub docs_after_attr: bool,
 }
 
 impl Default for RenderOpts {
     fn default() -> Self {
-        RenderOpts { docs: false, vis_pub: true, enum_derives: "#[derive(Debug, PartialEq, Eq)]".to_string() }
+        RenderOpts { docs: false, vis_pub: true, enum_derives: "#[derive(Debug, PartialEq, Eq)]".to_string(), docs_after_attr: false }
     }
 }
 
@@ -79,10 +81,17 @@ pub fn render_enum(e: &EnumDecl, o: &RenderOpts) -> String {
         if o.docs {
             s.push_str("    /// documented variant\n");
         }
-        match v.cfg {
-            Cfg::None => {}
-            Cfg::Always => s.push_str("    #[cfg(all())]\n"),
-            Cfg::Never => s.push_str("    #[cfg(any())]\n"),
+        match v.style {
+            1 => s.push_str("    #[allow(dead_code)]\n"),
+            3 if !o.docs => s.push_str("    /// a variant\n"),
+            _ => {}
+        }
+        match (v.cfg, v.style) {
+            (Cfg::None, _) => {}
+            (Cfg::Always, 2) => s.push_str("    #[cfg(all())]\n    #[cfg(all())]\n"),
+            (Cfg::Never, 2) => s.push_str("    #[cfg(all())]\n    #[cfg(any())]\n"),
+            (Cfg::Always, _) => s.push_str("    #[cfg(all())]\n"),
+            (Cfg::Never, _) => s.push_str("    #[cfg(any())]\n"),
         }
         match &v.disc {
             Disc::Missing => s.push_str(&format!("    {},\n", v.name)),
@@ -110,7 +119,7 @@ pub fn ty_text(l: &Layout, ty: &FieldTy) -> String {
         FieldTy::INat { bits } => format!("i{}", bits),
         FieldTy::Enum { idx, option } => {
             if *option {
-                format!("Option<{}>", l.enums[*idx].name)
+                format!("Option<{}>", l.enums[*idx].name) // (qualified spellings are applied in render_field)
             } else {
                 l.enums[*idx].name.clone()
             }
@@ -129,37 +138,47 @@ pub fn rng_text(r: &Rng) -> String {
 
 pub fn field_attr(f: &Field) -> String {
     let kw = if f.kw_bit { "bit" } else { "bits" };
-    let mut args: Vec<String> = Vec::new();
-    if f.list {
+    let range = if f.list {
         let inner: Vec<String> = f.ranges.iter().map(rng_text).collect();
-        args.push(format!("[{}]", inner.join(", ")));
+        format!("[{}]", inner.join(", "))
     } else {
-        args.push(rng_text(&f.ranges[0]));
-    }
-    if let Some(a) = f.access.text() {
-        args.push(a.to_string());
-    }
-    if let Some(a) = &f.array {
-        if let Some(st) = a.stride {
-            if a.colon {
-                args.push(format!("stride: {}", st));
-            } else {
-                args.push(format!("stride = {}", st));
-            }
-        }
-    }
+        rng_text(&f.ranges[0])
+    };
+    let access = f.access.text().map(|a| a.to_string());
+    let stride = f.array.as_ref().and_then(|a| a.stride.map(|st| if a.colon { format!("stride: {}", st) } else { format!("stride = {}", st) }));
+    // (range, access, stride) in one of the six orders
+    let perm: [usize; 3] = match f.arg_order % 6 {
+        0 => [0, 1, 2],
+        1 => [0, 2, 1],
+        2 => [1, 0, 2],
+        3 => [1, 2, 0],
+        4 => [2, 0, 1],
+        _ => [2, 1, 0],
+    };
+    let parts = [Some(range), access, stride];
+    let args: Vec<String> = perm.iter().filter_map(|k| parts[*k].clone()).collect();
     format!("#[{}({})]", kw, args.join(", "))
 }
 
 pub fn render_field(l: &Layout, f: &Field, o: &RenderOpts) -> String {
     let mut s = String::new();
-    if o.docs {
+    if o.docs && !o.docs_after_attr {
         s.push_str("    /// documented field\n");
     }
     s.push_str("    ");
     s.push_str(&field_attr(f));
     s.push('\n');
-    let t = ty_text(l, &f.ty);
+    if o.docs && o.docs_after_attr {
+        s.push_str("    /// documented field\n");
+    }
+    let mut t = ty_text(l, &f.ty);
+    if let FieldTy::Enum { option: true, .. } = &f.ty {
+        match f.opt_path {
+            1 => t = format!("core::option::{}", t),
+            2 => t = format!("::core::option::{}", t),
+            _ => {}
+        }
+    }
     let t = match &f.array {
         Some(a) => format!("[{}; {}]", t, a.count),
         None => t,
@@ -183,11 +202,17 @@ pub fn render_struct(l: &Layout, o: &RenderOpts) -> String {
                 "const {}: u{} = {};\n",
                 default_const_name(l),
                 l.storage_bits(),
-                lit(d.value, d.radix, false)
+                lit(d.value, if d.radix == 17 { 16 } else if d.radix == 3 { 2 } else { d.radix }, false)
             ));
             args.push(format!("default{} {}", sep, default_const_name(l)));
         } else {
-            args.push(format!("default{} {}", sep, lit(d.value, d.radix, false)));
+            // radix 8 / 17 / 3: octal, and hex / binary with `_` separators
+            let text = match d.radix {
+                17 => lit(d.value, 16, true),
+                3 => lit(d.value, 2, true),
+                r => lit(d.value, r, false),
+            };
+            args.push(format!("default{} {}", sep, text));
         }
     }
     if l.debug {
